@@ -96,10 +96,17 @@ func ParseTokenRevocationRequest(r *http.Request, revoker Revoker) (token, token
 			return "", "", "", oidc.ErrInvalidClient().WithDescription("auth_method private_key_jwt not supported")
 		}
 		profile, err := VerifyJWTAssertion(r.Context(), req.ClientAssertion, revokerJWTProfile.JWTProfileVerifier(r.Context()))
-		if err == nil {
-			return req.Token, req.TokenTypeHint, profile.Issuer, nil
+		if err != nil {
+			return "", "", "", err
 		}
-		return "", "", "", err
+		client, err := revoker.Storage().GetClientByClientID(r.Context(), profile.Issuer)
+		if err != nil {
+			return "", "", "", oidc.ErrInvalidClient().WithParent(err)
+		}
+		if client.AuthMethod() != oidc.AuthMethodPrivateKeyJWT {
+			return "", "", "", oidc.ErrInvalidClient()
+		}
+		return req.Token, req.TokenTypeHint, profile.Issuer, nil
 	}
 	clientID, clientSecret, ok := r.BasicAuth()
 	if ok {
